@@ -27,7 +27,8 @@ def worktree(patch=None):
         rc, out = sh(["git", "apply", os.path.abspath(patch)], cwd=d)
         if rc:
             remove(d)
-            raise SystemExit("patch does not apply: " + out)
+            print("patch does not apply: " + out)
+            sys.exit(3)  # not 1: callers read 1 as "the check caught the change"
     return d
 
 
